@@ -101,6 +101,39 @@ claim('C05', 'Coq proof (invariant of a file-system model with volatile/durable 
       'interposer cross-checked against strace, crash simulator against the model; fake redis; dump of a packed key drops the old value first (observation).',
       'DESIGN.md sec. 3 C05')
 
+claim('C09', 'Coq proof (memoised DFS = reverse reachability by induction on fuel/position with a sound-memo invariant; shell work-list by a termination measure; store effect, closedness, following execute) + differential evaluation of the model in coqc against the real `jug invalidate`, shell invalidate() and `jug execute` + independent syntactic-closure / value oracle',
+      'Theorems (Props/C09.v) for every well-formed task graph (duplicate calls allowed), every target matcher and every store state: the command hands to '
+      'remove_many exactly {t | t matches or depends transitively on a match}; the shell\'s invalidate(s) visits exactly s and its dependents (any graph); '
+      'command and shell remove the same set for the same target; exactly those keys lose their result, all others are untouched; dependency-closedness '
+      'is preserved; a following execute runs exactly the tasks without result, each once.  Tie: generated jugfiles (edges via args, kwargs, containers, '
+      'tasklets, task-valued indices, mapped sequences/slices/elements, CustomHash, identity) x bare/dotted/regex targets x full/partial/non-closed/packed/'
+      'empty stores x file/packed/dict/fake-redis: exact remove_many argument, exact remove() sequence of every shell call, keys after, printed table, '
+      'keys dumped by the next execute; oracle re-evaluates the program after the target\'s functions changed.',
+      'Kernel + vm_compute; graph = what Task.dependencies() yields (link to syntactic dependencies: C03/C16, checked dynamically here); matcher is an oracle; '
+      'per-backend remove_many refinement from C06; fake redis; no concurrent modification; wf_dag checked per observed graph.',
+      'DESIGN.md sec. 3 C09')
+claim('C15', 'Coq proof (classification = specification by case analysis; counters partition the tasks; cached = uncached by induction over the history with a cache-soundness invariant; check loop) + differential evaluation of the model in coqc against the real `jug status`, `jug status --cache` (sqlite file on disk) and `jug check` + independent Python oracle of the specification',
+      'Theorems (Props/C15.v) for every task graph, store state (dependency-closed or not) and lock state: a task is counted complete iff stored, else waiting iff a direct '
+      'dependency is not stored, else failed/active/ready by its lock; exactly one column; cells, per-name sums and the Total row add up to the tasks; for every '
+      'history in which results only grow (locks arbitrary) every cached call prints what the uncached command prints (sticky finished/ready entries stay true); '
+      'check = 0 iff every task is complete, on every store state.  Tie: generated jugfiles x 2-4-state monotone histories x held/failed locks x file/packed/dict/'
+      'fake-redis: every table cell, Total row, exit status, and the full sqlite cache content after every call.',
+      'Kernel + vm_compute; graph = what Task.dependencies() yields; wf_dag checked per observed graph; results not removed and jugfile unchanged between cached calls '
+      '(hypotheses of the property); fake redis; sqlite3 and the table/cache parsers trusted; no concurrent modification during a command.',
+      'DESIGN.md sec. 3 C15')
+claim('C16', 'Coq proof (nested induction over the argument universe; frame / blame / stability of resolution; slice arithmetic via C17) + differential evaluation of the model in coqc on exhaustive small and random argument structures + real jug execute/invalidate runs',
+      'Theorems for ALL argument structures and stores (Props/C16.v): value() of base[idx] / Tasklet(base, f) / iteratetask / return_tuple / CustomHash / NoHash / containers '
+      'is the operation applied to the values at any nesting, indices being arbitrary arguments (tasks, tasklets); a mapped sequence is the concatenation of its blocks, '
+      'a slice (any range, slices of slices) is Python\'s list slice of the whole value; resolution reads the store only at declared dependencies, a missing result met during '
+      'resolution is a declared dependency (can_run => never dies in load), outcomes are stable under store extension; Task.dependencies\' walk declares exactly the tasks '
+      'occurring underneath (bases, indices, blocks, CustomHash, containers); hence a consumer depends on, and is invalidated with (C09), every task underneath.  '
+      'Tie: every argument tree of <= 3/4 nodes and random deep compositions as real jug objects, value() outcome and dependencies() compared with the model in coqc; '
+      'direct oracles (reference evaluation, reads within dependencies, can_run, store keys) and real `jug execute`/`jug invalidate` on a dict store.',
+      'Kernel + vm_compute; results are plain Python values (indexing into str/bytes, bool indices, return_tuple over dict/str are outside the model and only tested directly); '
+      'mapped-sequence theorems assume what jug.mapreduce.map builds (blocks = break_up of the values, map_step >= 1; C17); exception kinds not distinguished; '
+      'harness: spec generator/realiser, reference evaluator, interning.',
+      'DESIGN.md sec. 3 C16')
+
 ALL = ['C%02d' % i for i in range(1, 21)]
 
 
